@@ -238,6 +238,7 @@ func (g *Group) checkTotalSizeLimit() {
 func (g *Group) RotateFile() {
 	g.mtx.Lock()
 	defer g.mtx.Unlock()
+	gcmn.VerifPoint("file-rotate", g.Head.Path)
 
 	dstPath := filePathForIndex(g.Head.Path, g.maxIndex, g.maxIndex+1)
 	//windows下,rename会报错"xxx used by another process";这里先close,再执行rename.
